@@ -292,6 +292,13 @@ def r16_3(run, model, mir):
                                 ct = S.norm_ws(run.facts.text(rel, iff["cond"]["sp"]))
                                 if "trait_impls.contains_key(" in ct and not ct.startswith("!") and (reports_error(iff["then"]) or any(True for _ in S.find(iff["then"], "Return"))):
                                     return True
+                                # the guard form: `if !table.contains_key(key) { continue; }` followed by the report
+                                if "trait_impls.contains_key(" in ct and ct.startswith("!") and iff.get("else") is None and \
+                                        any(True for _ in S.find(iff["then"], "Continue")):
+                                    stmts_ = inner["body"]["stmts"]
+                                    pos_ = next((i_ for i_, s_ in enumerate(stmts_) if S.span_contains(s_["sp"], iff["sp"])), None)
+                                    if pos_ is not None and any(reports_error(s_) or any(True for _ in S.find(s_, "Return")) for s_ in stmts_[pos_ + 1:]):
+                                        return True
                     return False
                 helpers = {g.name: g for g in model.fns(rel) if g.body is not None and g.name != f.name}
                 for s in stmts[:first_ap]:
@@ -446,12 +453,13 @@ def no_import_skipped(run, model, rule):
     n = 0
     for name in ("check_package", "build_package"):
         f = model.fn(name, SEP)
-        loops = [l for l in S.find(f.body, "For") if any(True for _ in S.calls(l["body"], "load_interface_from_paths"))]
+        loops = [l for l in S.find(model.inlined_body(f), "For") if any(True for _ in S.calls(l["body"], "load_interface_from_paths"))]
         if not loops:
             raise AnalysisIncomplete(f"{name}: loop that loads the interfaces of the imports not found")
         for loop in loops:
             n += 1
-            skips = [c for c in S.walk_no_closures(loop["body"]) if c["k"] == "Continue"]
+            inner_loops = list(S.find(loop["body"], "For", "While", "Loop"))
+            skips = [c for c in S.walk_no_closures(loop["body"]) if c["k"] == "Continue" and not any(S.span_contains(l2["sp"], c["sp"]) for l2 in inner_loops)]
             conds = []
             par = S.Parents(loop["body"])
             for c in skips:
@@ -604,14 +612,24 @@ def r16_14(run, model):
             helpers[g.name] = g
     for name in ("check_package", "build_package"):
         f = model.fn(name, SEP)
-        loops = [l for l in S.find(f.body, "For") if any(True for _ in S.calls(l["body"], "load_interface_from_paths"))]
+        # the loop may have moved into a private helper together with the rest of the dependency loading
+        loops = [l for l in S.find(model.inlined_body(f), "For") if any(True for _ in S.calls(l["body"], "load_interface_from_paths"))]
+        loops = [l for l in loops if not any(l is not l2 and S.span_contains(l2["sp"], l["sp"]) for l2 in loops)]
         if len(loops) != 1:
             raise AnalysisIncomplete(f"{name}: the loop that loads dependency interfaces was not found")
         body = loops[0]["body"]
         t = S.norm_ws(run.facts.text(SEP, body["sp"]))
-        direct = re.search(r"\.deps\.(contains_key|get)\(&?opts\.package", t) is not None and "Err(" in t
-        via = [c for c in S.walk(body) if c["k"] == "Call" and S.callee_name(c) in helpers and "opts" in S.idents(c)]
-        propagated = any(p_ is not None and p_["k"] == "Try" for p_ in [S.Parents(body).parent(c) for c in via])
+        direct = re.search(r"\.deps\.(contains_key|get)\(&?(opts\.)?package", t) is not None and "Err(" in t
+        via = [c for c in S.walk(body) if c["k"] == "Call" and S.callee_name(c) in helpers and (S.idents(c) & {"opts", "package"})]
+        bpar = S.Parents(body)
+
+        def first_real_parent(c):
+            for a in bpar.ancestors(c):
+                if a["k"] in ("ExprStmt",) or (a["k"] == "Block" and a.get("inlined")):
+                    continue
+                return a
+            return None
+        propagated = any(p_ is not None and p_["k"] == "Try" for p_ in [first_real_parent(c) for c in via])
         run.ob("R16.14", f"{name}|a dependency built against this package is refused", direct or (bool(via) and propagated), site(SEP, loops[0]["sp"]),
                "the loaded interface's deps are tested for the package being compiled" if direct or via else
                "only `dep == opts.package` is tested: a stale interface of the other package lets every member of a cycle pass",
